@@ -63,7 +63,7 @@ pub fn all_props() -> Vec<Box<dyn framework::Prop>> {
     // C16 = re-entrant callbacks (Engine S + lock monitor) + deadlock freedom under threads (Engine T)
     v.push(Box::new(framework::Composite {
         id: "C16",
-        parts: vec![Box::new(props_c16::C16Prop), Box::new(props_c02::c16_t())],
+        parts: vec![Box::new(props_c16::C16Prop), Box::new(props_c02::c16_t()), Box::new(props_hyb::c16_hyb())],
     }));
     v.push(Box::new(props_c02::c02()));
     v.push(Box::new(props_c08::C08Prop));
